@@ -49,8 +49,10 @@ def run(chk: Check, proj: Project) -> None:
     s5_accessors(chk, proj, ["CONTEXT_BEHAVIOR"], rule="S8")
     s10_mode_source(chk, proj, w)
     s12_layer_frame(chk, proj, w)
-    from . import C06
+    from . import C06, C07
 
+    chk.borrow("S13", "the Context a fill is rendered in belongs to ONE render: no module-level Context / Template object ('the empty outer context, created once') is handed to render code - every fill rendered through it would push its variables onto the same object, so concurrently active fills (two threads, or a render started from inside a slot function) see and pop each other's variables (shared with C07-S1-G)",
+               lambda sub: C07.s1g_global_objects(sub, proj, w, C07.reach_set(proj, w)))
     # variable layers of the caller's Context only (`<ctx>.push/.update`); the render_context window is C06's (F6b)
     chk.borrow("S11", "a layer pushed on the CALLER's Context in statement form is popped also when something in between raises (shared with C06-S2b; failed renders as such are C06)",
                lambda sub: C06.s2b_push_pop(sub, proj, w), only=lambda o: o.construct.endswith(">.push") or o.construct.endswith(">.update") or o.construct.endswith(">.dicts.insert") or o.construct.endswith(">.dicts.append"))
